@@ -53,6 +53,10 @@ fn validate(att: &PushAttempt, ids: &[String], payloads: &[Vec<u8>], attrs: &[(S
 
 /// `n` messages, `rounds` push rounds, answers drawn from `menu` at every attempt; optional deletion after a round.
 fn scenario(name: &'static str, n: usize, rounds: usize, menu: Vec<PushAnswer>, delete_after: Option<usize>, frozen: bool) -> ScenFn {
+    scenario_x(name, n, rounds, menu, delete_after, frozen, false)
+}
+
+fn scenario_x(name: &'static str, n: usize, rounds: usize, menu: Vec<PushAnswer>, delete_after: Option<usize>, frozen: bool, interfere: bool) -> ScenFn {
     scen!([menu] |cx| {
         cx.set_push_menu(menu.clone());
         let a = cx.api.clone();
@@ -159,6 +163,24 @@ fn scenario(name: &'static str, n: usize, rounds: usize, menu: Vec<PushAnswer>, 
                     }
                 }
             }
+            // unrelated, and rejected, requests between rounds must not disturb the push subscription
+            if interfere && round == 0 {
+                let which = cx.choose("interference", 5);
+                let a2 = a.clone();
+                let r = tryv!(cx.settle("client:interference", async move {
+                    match which {
+                        0 => "none".to_string(),
+                        1 => res(&a2.create_sub(S0, T0, 10, None).await),
+                        2 => res(&a2.create_sub(S0, T0, 10, Some("http://other.example/")).await),
+                        3 => res(&a2.create_sub(S2, T0, 10, None).await),
+                        _ => res(&a2.get_sub(S0).await),
+                    }
+                }).await);
+                history.push(format!("interference{}:{}", which, r));
+                if (which == 1 || which == 2) && r != "AlreadyExists" {
+                    return ScenarioOut::viol("push/duplicate-create-not-rejected", format!("{}: CreateSubscription of the existing push subscription returned {}", name, r));
+                }
+            }
             if delete_after == Some(round) {
                 must!(cx, "client:delete-sub", { let a = a.clone(); async move { a.delete_sub(S0).await } });
                 deleted_at = Some(cx.now_ms());
@@ -226,6 +248,7 @@ pub fn units(thorough: bool) -> Vec<Unit> {
         explore_unit("fault/delete", "2 messages, failing / slow answers, DeleteSubscription after the first or second round: no POST afterwards", Bounds::new(0), cfg.clone(), scenario("delete", 2, 4, vec![Status(500), Delay(2_500, 500), Status(200)], Some(0), true)),
         explore_unit("fault/delete-later", "the same with the deletion after the second round", Bounds::new(0), cfg.clone(), scenario("delete-later", 2, 4, vec![Status(500), Delay(2_500, 500), Status(200)], Some(1), true)),
         explore_unit("fault/2msg-sched", "2 messages, answers {200, 500, connection error}, 3 rounds, with the scheduling of the push tasks, dispatches and actors explored", Bounds::new(if thorough { 2 } else { 1 }), cfg.clone(), scenario("2msg-sched", 2, 3, vec![Status(200), Status(500), ConnError], None, false)),
+        explore_unit("fault/interference", "2 messages failing in the first round; between the rounds a rejected duplicate CreateSubscription of the push subscription (with / without endpoint), an unrelated create, a get: the retries go on regardless", Bounds::new(0), cfg.clone(), scenario_x("interference", 2, 3, vec![Status(500), Status(200)], None, true, true)),
         status_sweep(),
     ];
     if thorough {
